@@ -152,6 +152,12 @@ def rand_pdu(rng, w, ep, size, force_kind=None):
         raw = pdugen.raw(kind, conf, f, towards_sender=ts)
     except Exception:  # noqa: BLE001  (a field combination the dependency refuses to build)
         return None, None, None
+    if kind == "MD" and f.get("src_name") and not conf.crc_flag and rng.random() < 0.15:
+        # file names are byte strings on the wire: here one which is not valid UTF-8 (same length, so the PDU stays well-formed)
+        name = w.src_path.name.encode() if rng.random() < 0.5 else w.dst_req_path.name.encode()
+        if len(name) >= 3 and raw.count(name) >= 1:
+            raw = raw.replace(name, b"\xff\xfe" + name[2:], 1)
+            f = dict(f, binary_file_name=True)
     return kind, raw, {"kind": kind, "conf": [conf.source_entity_id.value, conf.dest_entity_id.value, conf.transaction_seq_num.value, idw], "ts": ts,
                        "f": {k: (v.hex() if isinstance(v, (bytes, bytearray)) else v) for k, v in f.items() if k not in ("src_name", "dst_name")}}
 
@@ -274,6 +280,8 @@ def run_fuzz(case):
                         obs["generated_pdu_not_parsable_by_dependency"] = obs.get("generated_pdu_not_parsable_by_dependency", 0) + 1
                         continue
                     actions_log.append(desc)
+                    if isinstance(desc, dict) and desc.get("f", {}).get("binary_file_name"):
+                        obs["metadata_pdus_with_non_utf8_file_name"] = obs.get("metadata_pdus_with_non_utf8_file_name", 0) + 1
                     keys["fuzzed"].append(f"{case['side']}|{step_name}|{kind}")
                     if before["state"][0] == "BUSY":
                         reached_busy += 1
@@ -455,4 +463,4 @@ def finalize(ctx):
     return [], inc
 
 
-REQUIRED = {"put_requests_with_binary_messages_to_user": 50, "put_requests_with_over_long_names": 50, "pdus_together_with_timer_expiry": 500, "resets_with_undrained_queue": 500, "enumerated_sequences": 5000, "fuzz_cases": 200, "pdus_to_busy_handler": 2000, "admission_rejections_checked": 500, "loop_cases": 200, "calls_returned": 2000}
+REQUIRED = {"metadata_pdus_with_non_utf8_file_name": 50, "put_requests_with_binary_messages_to_user": 50, "put_requests_with_over_long_names": 50, "pdus_together_with_timer_expiry": 500, "resets_with_undrained_queue": 500, "enumerated_sequences": 5000, "fuzz_cases": 200, "pdus_to_busy_handler": 2000, "admission_rejections_checked": 500, "loop_cases": 200, "calls_returned": 2000}
